@@ -44,7 +44,20 @@ PROPS["C09"] = dict(
                 "rule:prepend-local-as", "rule:prepend-confed-seq", "rule:confed-id-towards-non-member", "rule:remove-private-as:all", "rule:remove-private-as:replace", "rule:replace-peer-as",
                 "rule:local-as", "rule:allow-as-path-loop-local", "rule:nexthop:self", "rule:nexthop:unchanged", "rule:nexthop:local-route-self", "rule:local-pref-removed", "rule:local-pref-default",
                 "rule:foreign-med-removed", "rule:rr-attributes-removed", "rule:reflect-to-client", "rule:reflect-client-to-nonclient", "rule:rs-transparent", "rule:ibgp-aspath-unchanged"]
-               + ["pair:%s->%s" % (a, b) for a in _C09_SRC for b in _C09_DST],
+               + ["pair:%s->%s" % (a, b) for a in _C09_SRC for b in _C09_DST]
+               # unit "e2e" (daemon level, on the wire)
+               + ["e2e:c09:scenarios", "e2e:c09:nontrivial_scenarios", "e2e:c09:routes_announced", "e2e:c09:attribute_checks", "e2e:c09:decision:advertised",
+                  "e2e:c09:decision:suppressed:back-to-source-router", "e2e:c09:decision:suppressed:nonclient-to-nonclient", "e2e:c09:decision:suppressed:peer-as-in-path",
+                  "e2e:c09:inbound:clean", "e2e:c09:inbound:own-as-beyond-allow-own-as", "e2e:c09:inbound:own-as-within-allow-own-as",
+                  "e2e:c09:inbound:own-router-id-as-originator", "e2e:c09:inbound:own-cluster-id",
+                  "e2e:c09:rule:prepend-local-as", "e2e:c09:rule:nexthop:self", "e2e:c09:rule:nexthop:unchanged", "e2e:c09:rule:nexthop:local-route-self",
+                  "e2e:c09:rule:local-pref-removed", "e2e:c09:rule:local-pref-default", "e2e:c09:rule:foreign-med-removed", "e2e:c09:rule:rr-attributes-removed",
+                  "e2e:c09:rule:ibgp-aspath-unchanged", "e2e:c09:rule:reflect-to-client", "e2e:c09:rule:reflect-client-to-nonclient", "e2e:c09:rule:rs-transparent",
+                  "e2e:c09:rule:remove-private-as:all", "e2e:c09:rule:remove-private-as:replace", "e2e:c09:rule:replace-peer-as", "e2e:c09:rule:local-as",
+                  "e2e:c09:rule:unknown-nontransitive-dropped", "e2e:c09:rule:unknown-transitive-passed-on"]
+               + ["e2e:c09:pair:%s->%s" % (a, b) for a in ("local", "ebgp", "ibgp", "rrclient") for b in ("ebgp", "ibgp", "rrclient")] + ["e2e:c09:pair:rsclient->rsclient"]
+               + ["e2e:c09:reached:%s->%s" % (a, b) for a in ("local", "ebgp", "ibgp", "rrclient") for b in ("ebgp", "ibgp", "rrclient") if (a, b) != ("ibgp", "ibgp")]
+               + ["e2e:c09:reached:rsclient->rsclient"],
     min_nontrivial=1000,
     units=[dict(name="table", harness="t_table", files=["common_", "c09_"], run="TestVerifC09",
                 shards=dict(quick=16, thorough=16), timeout_s=dict(quick=600, thorough=5400)),
